@@ -460,7 +460,7 @@ def model_to_smt2(model_assertions):
 
 def run_case(run, case, deadline=None):
     """Explore all paths of one case; record one obligation per claim name (aggregated over paths)."""
-    stats = {}
+    stats = {"concretize_cap": getattr(case, "concretize_cap", 64)}
     agg = {}          # claim name -> dict(verdict, paths, detail)
     order = []
     t0 = time.time()
